@@ -158,6 +158,37 @@ def run(tier, seed, replay=None):
             lmeta.append({"division_interface": kind_, "case": len(lcases) - 1})
         except Exception as ex:
             V.fail("division interface correspondence: %s raises %s" % (kind_, type(ex).__name__), {"kind": kind_, "exc": str(ex)[:200]}, failing_input=False)
+    # whole-train composition as amen_divide composes the helpers, on Gaussian-integer trains with x := q * y (exact TT product): check_chain of
+    # Model/Local.v on the same cores (the divisor as diagonal operator), and the conclusion of theorem C13_product_quotient_stationary read off the
+    # implementation: local_product(q_k) == local right-hand side, exactly
+    n_chain = 0
+    for j in range(8 if tier == "quick" else 80):
+        d_ = rng_l.choice([2, 3, 3, 4]); k_ = rng_l.randrange(d_); Ns = [rng_l.choice([1, 2, 3]) for _ in range(d_)]
+        rq = [1] + [rng_l.choice([1, 2]) for _ in range(d_ - 1)] + [1]; ry = [1] + [rng_l.choice([1, 2]) for _ in range(d_ - 1)] + [1]
+        try:
+            qc = [ic((rq[i], Ns[i], rq[i + 1])) for i in range(d_)]; yc = [ic((ry[i], Ns[i], ry[i + 1])) for i in range(d_)]
+            qt, yt = torchtt.TT([Tc(c) for c in qc]), torchtt.TT([Tc(c) for c in yc])
+            xt = qt * yt; xc = [c.numpy() for c in xt.cores]
+            PhA, Phb = [None] * (d_ + 1), [None] * (d_ + 1)
+            PhA[0] = torch.ones((1, 1, 1), dtype=torch.complex128); PhA[d_] = torch.ones((1, 1, 1), dtype=torch.complex128)
+            Phb[0] = torch.ones((1, 1), dtype=torch.complex128); Phb[d_] = torch.ones((1, 1), dtype=torch.complex128)
+            for i in range(k_):
+                PhA[i + 1] = DV.compute_phi_fwd_A(PhA[i], Tc(qc[i]), Tc(yc[i]), Tc(qc[i])); Phb[i + 1] = DV.compute_phi_fwd_rhs(Phb[i], Tc(xc[i]), Tc(qc[i]))
+            for i in range(d_ - 1, k_, -1):
+                PhA[i] = DV.compute_phi_bck_A(PhA[i + 1], Tc(qc[i]), Tc(yc[i]), Tc(qc[i])); Phb[i] = DV.compute_phi_bck_rhs(Phb[i + 1], Tc(xc[i]), Tc(qc[i]))
+            lp = DV.local_product(PhA[k_ + 1], PhA[k_], Tc(yc[k_]), Tc(qc[k_]), list(qc[k_].shape))
+            rhs_ = torch.einsum('br,bmB,BR->rmR', Phb[k_], Tc(xc[k_]), Phb[k_ + 1])
+            dsc = {"division_interface": "chain", "case": len(lcases), "d": d_, "k": k_, "N": Ns, "rq": rq, "ry": ry}
+            if not torch.equal(lp.reshape(-1), rhs_.reshape(-1)):
+                V.fail("stationarity: with x = q * y (Gaussian-integer cores) the local product applied to the k-th core of q differs from the local right-hand side",
+                       dict(dsc, lp=[str(v) for v in lp.reshape(-1).tolist()[:12]], rhs=[str(v) for v in rhs_.reshape(-1).tolist()[:12]]))
+            l3 = lambda cs: "[" + ";".join(o3(c) for c in cs) + "]"; l4 = lambda cs: "[" + ";".join(o4d(c) for c in cs) + "]"
+            lcases.append("[check_chain (R:=ZI) %s %s %s %s %s %s %s %s %s %s %s]" % (l3(qc[:k_]), l3(qc[k_ + 1:]), l4(yc[:k_]), l4(yc[k_ + 1:]), o4d(yc[k_]), o3(qc[k_]),
+                          l3(xc[:k_]), l3(xc[k_ + 1:]), o3(xc[k_]), zil(lp.numpy()), zil(rhs_.numpy())))
+            lmeta.append(dsc); n_chain += 1
+        except Exception as ex:
+            V.fail("division interface correspondence: chain raises %s" % type(ex).__name__, {"kind": "chain", "exc": str(ex)[:200]}, failing_input=False)
+    dist["whole-train interface composition + stationarity of an exact quotient (exact, complex)"] = n_chain
     n_local = 0
     if ok_make and lcases:
         try:
